@@ -1401,7 +1401,7 @@ pub(crate) mod __verif {
 
     /// An arbitrary match sequence the iterator contract allows on a haystack: n <= 3 matches on character boundaries, each
     /// starting at or after the cursor left by the previous one (its end, or one character further after an empty match).
-    fn any_script(len: usize, bnd: &[bool; 5]) -> usize {
+    pub(crate) fn any_script(len: usize, bnd: &[bool; 5]) -> usize {
         let n: usize = kani::any();
         kani::assume(n <= 3);
         let mut cursor: Option<usize> = Some(0);
